@@ -177,7 +177,10 @@ def _generators(ctx):
             du = DefUse(b)
             s1 = du.slice_operand(t["args"][1])
             root = F.body("proxy::cluster::" + hn)
-            ok_states = s1.has_param(3) or s1.has_param(4) or "migration_states" in s1.captures
+            from ..lib import capture_types
+            rp = _states_param(root) if root is not None else None
+            cap_ok = any("MigrationState" in ty and "RangeList" in ty for ty in capture_types(F, b, s1.captures).values())
+            ok_states = (rp is not None and s1.has_param(rp) and b is root) or cap_ok or (b is not root and any("MigrationState" in b.locals[l]["ty"] and "RangeList" in b.locals[l]["ty"] for l, _ in s1.params))
             ctx.check(ok_states, "C14.D3", "filter-states:%s" % hn, site(b, bb), ok="filter uses the helper's migration_states argument", bad="should_ignore_slots is not given the helper's migration_states")
             # when the filter says ignore, nothing derived from the range is emitted
             for ign in (1, 0):
@@ -234,7 +237,7 @@ def _generators(ctx):
             continue
         ctx.analysed(b)
         du = DefUse(b)
-        ms = b.local_by_name("migration_states")
+        ms = _states_param(b)
         for cn in callees:
             cs = calls_to(b, cn)
             if not cs:
@@ -250,7 +253,7 @@ def _generators(ctx):
             continue
         ctx.analysed(b)
         du = DefUse(b)
-        ms = b.local_by_name("migration_states")
+        ms = _states_param(b)
         hs = calls_to(b, "gen_cluster_nodes_helper", "gen_cluster_slots_helper")
         ctx.check(bool(hs) and all(any(du.slice_operand(a, deep=False).has_param(ms) for a in t["args"]) for bb, t in hs), "C14.D3", "half-passes-states:%s" % half.split("::")[-1], site(b),
                   ok="passes migration_states to the helper", bad="%s does not pass its migration_states to the helper" % half)
@@ -266,6 +269,15 @@ def _generators(ctx):
         ctx.check(good, "C14.D3", "live-states:%s" % fn.split("::")[-1], site(b), ok="uses migration_map.get_states() of the installed snapshot", bad="%s does not feed the generators with migration_map.get_states()" % fn)
         both = bool(cs) and all(du.slice_operand(t["args"][0]).has_call("ArcSwapAny::load") or du.slice_operand(t["args"][0]).has_field("MetaMap", "cluster_map") for bb, t in cs)
         ctx.check(both, "C14.D3", "same-snapshot:%s" % fn.split("::")[-1], site(b), ok="cluster map and states come from one loaded snapshot", bad="cluster map is not taken from the loaded snapshot")
+
+
+def _states_param(b):
+    """index of the parameter that carries the migration-state map (by type)"""
+    for i in range(1, b.argc + 1):
+        ty = b.locals[i]["ty"]
+        if "HashMap<common::cluster::RangeList, common::cluster::MigrationState" in ty or ("RangeList" in ty and "MigrationState" in ty and "HashMap" in ty):
+            return i
+    return None
 
 
 def op_local(op):
